@@ -1,0 +1,15 @@
+//go:build verif
+
+package contentstream
+
+import "github.com/tsawler/tabula/core"
+
+// Add-only exports for the verification harness (built only with -tags verif).
+
+// VerifParseOperand runs parseOperand once on a fresh parser over data and returns
+// the operand, the parser's position after the call, and its open-container count.
+func VerifParseOperand(data []byte) (obj core.Object, pos int, depth int, err error) {
+	p := NewParser(data)
+	obj, err = p.parseOperand()
+	return obj, p.pos, p.depth, err
+}
